@@ -208,6 +208,34 @@ def scripted_family(run, fam, quick):
         idle = idle[:k] + [{"a": "sleep", "c": "", "i": 2000 if quick else 12000, "k": "", "s": "", "hold": False}] + idle[k:]
         out.append((idle, {"unbind_route": "0", "tls": "starttls"}))
         return out
+    elif fam == "timeout":
+        # servers created WithReadTimeout: the connection's one read deadline expires while it is idle / in the middle of a
+        # frame / has a handler running / is upgraded / is still waiting for a TLS handshake; then traffic of a bystander, Stop
+        R, D = {"a": "run"}, lambda c, k="": {"a": "dial", "c": c, "k": k}
+        S = lambda c, k, hold=False: {"a": "send", "c": c, "k": k, "hold": hold}
+        rel = lambda c, i: {"a": "release", "c": c, "i": i}
+        T = lambda c: {"a": "timeout", "c": c}
+        stop1 = {"a": "stop", "s": "s1"}
+        ms = "900" if quick else "2500"
+        base = {"Conns": '{"c1", "c2"}', "MaxReq": "3", "FrameKinds": '{"op", "partial", "unbind", "starttls"}', "ReadTimeout": "TRUE", "AllowTimeout": "TRUE"}
+        plain = [[R, D("c1"), T("c1")],
+                 [R, D("c1"), S("c1", "op"), T("c1"), stop1],
+                 [R, D("c1"), S("c1", "op", True), T("c1"), rel("c1", 1)],
+                 [R, D("c1"), S("c1", "partial"), T("c1")],
+                 [R, D("c1"), S("c1", "op", True), S("c1", "op"), T("c1"), stop1, rel("c1", 1)],
+                 [R, D("c1"), D("c2"), S("c2", "op"), T("c1"), S("c2", "op"), T("c2")]]
+        out = [(b, {"unbind_route": "0", "read_timeout_ms": ms}) for b in scen.scripted(run, plain, base)]
+        # the second connection is dialled well after the first one, so that its deadline is well after the first one's
+        # (a pause is a harness step: the model has no notion of time)
+        b6 = out[5][0]
+        k = next(i for i, e in enumerate(b6) if e["a"] == "dial" and e["c"] == "c2")
+        out[5] = (b6[:k] + [{"a": "sleep", "c": "", "i": int(ms) // 2, "k": "", "s": "", "hold": False}] + b6[k:], out[5][1])
+        stls = [[R, D("c1"), S("c1", "starttls"), S("c1", "op"), T("c1")],
+                [R, D("c1", "silent"), S("c1", "starttls"), T("c1")]]
+        out += [(b, {"unbind_route": "0", "read_timeout_ms": ms, "tls": "starttls"}) for b in scen.scripted(run, stls, dict(base, AllowSilent="TRUE"))]
+        tl = [[R, D("c1", "silent"), T("c1")], [R, D("c1", "valid"), S("c1", "op"), T("c1")], [R, D("c1", "valid"), T("c1"), stop1]]
+        out += [(b, {"unbind_route": "0", "read_timeout_ms": ms, "tls": "tls"}) for b in scen.scripted(run, tl, dict(base, TLSMode='"server"'))]
+        return out
     elif fam == "starttls-close":
         # upgraded sessions that end with an orderly close / a TCP reset / Unbind, idle or with a handler running
         R, D = {"a": "run"}, lambda c: {"a": "dial", "c": c}
@@ -256,7 +284,7 @@ def scripted_family(run, fam, quick):
     return [(b, dict(cfgs[n % len(cfgs)])) for n, b in enumerate(behs)]
 
 
-SCRIPTED = {"deep", "manyconns", "ready", "stopstates", "starttls2", "starttls-inflight", "starttls-close"}
+SCRIPTED = {"deep", "manyconns", "ready", "stopstates", "starttls2", "starttls-inflight", "starttls-close", "timeout"}
 
 
 def run_families(run, names, cap):
@@ -287,6 +315,12 @@ def check(run, pid, families, extra=None):
     mc = live if q else scen.design_check(run, DESIGN["thorough"], DESIGN_INV, workers=12, timeout=5400)
     scenarios, stats = run_families(run, families, cap=1200 if q else None)
     rows, trace = scen.replay(run, scenarios, par=8)
+    # scenarios whose timed steps ran late (a read deadline fired before the model's "timeout" step): not judged
+    late = {r.get("scen") for r in rows if r["ev"] == "desync"}
+    if late:
+        rows = [r for r in rows if r.get("scen") not in late]
+        scenarios = [s for s in scenarios if s["id"] not in late]
+        vlib.write_ndjson(trace, rows)
     res = scen.validate(run, trace, first=ATTR[pid]["inv"])
     viols = attribute(pid, res, rows, scenarios)
     # refinement: every recorded execution (its per-goroutine event sequences) is a behaviour of Gldap.tla
@@ -306,7 +340,7 @@ def check(run, pid, families, extra=None):
            "samples": [{"cfg": sample["cfg"], "behaviour": [[e["a"], e["c"], e["i"], e["k"], e["hold"]] for e in sample["behaviour"]],
                         "trace": [[r["ev"], r["c"], r["i"], r["val"]] for r in rows if r.get("scen") == sample["id"]][:40]}],
            "evaluations": nenv, "distinct_nontrivial": len({json.dumps([e for e in s["behaviour"] if e["a"] in scen.ENV]) for s in scenarios if any(e["hold"] or e["a"] in ("stop", "close", "panic") for e in s["behaviour"])}),
-           "families": stats, "trace_events": len(rows),
+           "families": stats, "trace_events": len(rows), "scenarios_out_of_step_not_judged": len(late),
            "refinement": {"traces": rn, "accepted": len(racc), "rejected": len(rrej), "not_modelled": rskip, "corrupted_traces_rejected": ntamper,
                           "rule": "GldapRefine.tla: per-goroutine event queues (gates of server.go/conn.go, handler entry/exit, OnClose, Stop/Run, client actions) "
                                   "interleaved by TLC under Gldap's actions; a trace is accepted when every event is consumed"},
